@@ -13,6 +13,11 @@ import YarlProofs.C09
 
   Every theorem below restates one clause in full and is proved from the theorems of C01.lean /
   C01Reach.lean (and C09.lean for the cache bookkeeping).  Read the `GAPS:` block at the end.
+
+  Continued in C01HeadlineMore.lean (theorems that need modules which import this file): C01Str.lean imports
+  this file, so the headline theorems that rest on it — the stored authority of a reachable URL is ASCII, the
+  whole string form is ASCII / well-escaped, user and password of EVERY reachable URL — are stated there as
+  `C01_headline_…`; the GAPS block below cites them.
 -/
 set_option linter.unusedVariables false
 namespace Yarl
@@ -105,7 +110,10 @@ theorem C01_headline_str_ascii (e : Env) (u : Url) (r : Str)
     (hcache : CacheOK e u)
     -- excludes a non-ASCII scheme: KNOWN FINDING F-C01-scheme (`C01_headline_str_ascii_fails_for` below)
     (hscheme : ∀ c ∈ u.scheme, c < 128)
-    -- excludes a non-ASCII stored netloc: NOT a finding, a GAP (no theorem derives it from `Reach`, see GAPS 1)
+    -- excludes a non-ASCII stored netloc.  Over plain `Reach` this guard cannot be dropped: KNOWN FINDING
+    -- F-C01-nonascii-zone (`C01_headline_str_ascii_fails_for_nonascii_zone_id` below).  It is DERIVED from
+    -- reachability under explicit side conditions in C01HeadlineMore.lean (`C01_headline_netloc_ascii`; the
+    -- guard-free string-form theorem is `C01_headline_str_ascii_reachable` there), see GAPS 1
     (hnetloc : ∀ c ∈ u.netloc, c < 128) :
     str e u = .ok r → ∀ c ∈ r, c < 128 := by
   rcases hcache with hpre | ⟨s, hs, hu⟩
@@ -129,18 +137,49 @@ theorem C01_headline_str_ascii_fails_for :
   exact ⟨_, fromParts [233] "h".toStr [] [] [], hu, hr, by decide +kernel,
     Reach.op _ (.withScheme [233]) _ hr (by show PyStr _; decide) (by decide +kernel), by decide +kernel⟩
 
+/-- the netloc guard is needed over plain `Reach` — KNOWN FINDING F-C01-nonascii-zone: the constructor copies the
+    zone id of an IP literal verbatim, so `URL('http://[fe80::1%é]/')` stores the authority '[fe80::1%é]', its
+    string form is the input itself ('http://[fe80::1%é]/', not ASCII) and `bytes(url)` raises UnicodeEncodeError
+    (same for `URL.build(authority='[fe80::1%é]')`).  Every OTHER guard of `C01_headline_str_ascii` holds for this
+    URL.  The oracle table is empty except for an identity NFKC answer: no IDNA answer is involved.
+    (Restates C01_netloc_ascii_fails_for_zone_id of C01Str.lean, which cannot be imported here; proved by
+    computation.) -/
+theorem C01_headline_str_ascii_fails_for_nonascii_zone_id :
+    let e : Env := ⟨.py, { Oracles.empty with nfkc := fun s => some s }⟩
+    let s : Str := "http://[fe80::1%".toStr ++ [233] ++ "]/".toStr
+    PyStr s ∧
+    ∃ u, encodeUrl e s = .ok u ∧ Reach e u ∧ CacheOK e u ∧ (∀ c ∈ u.scheme, c < 128) ∧
+      u.netloc = "[fe80::1%".toStr ++ [233] ++ "]".toStr ∧ ¬ (∀ c ∈ u.netloc, c < 128) ∧
+      str e u = .ok s ∧ ¬ (∀ c ∈ s, c < 128) := by
+  intro e s
+  have hu : encodeUrl e s = .ok
+      { scheme := "http".toStr, netloc := "[fe80::1%".toStr ++ [233] ++ "]".toStr, path := "/".toStr, query := [],
+        fragment := [],
+        pre := some { rawHost := some ("fe80::1%".toStr ++ [233]), explicitPort := none, rawUser := none,
+                      rawPassword := none } } := by
+    decide +kernel
+  refine ⟨by decide, _, hu, Reach.ctor s _ (by decide) hu, Or.inr ⟨s, by decide, hu⟩, by decide, rfl, ?_, ?_, ?_⟩
+  · intro h
+    exact absurd (h 233 (by decide)) (by decide)
+  · decide +kernel
+  · intro h
+    exact absurd (h 233 (by decide)) (by decide)
+
 /-! ## Clause 2 — "every '%' in it starts an escape of two uppercase hex digits" -/
 
 /-- "every '%' in it starts an escape of two uppercase hex digits" — for the three components the library
-    quotes itself (whole-string form: GAPS 2) -/
+    quotes itself (user / password: clause 3; the WHOLE string form, for a host without '%':
+    `C01_headline_percent_escapes_whole_string` in C01HeadlineMore.lean, GAPS 2) -/
 theorem C01_headline_percent_escapes (e : Env) (u : Url) :
     Reach e u → WellEscaped u.path ∧ WellEscaped u.query ∧ WellEscaped u.fragment :=
   fun h => ⟨(C01_reachable_components e u h).1.2.1, (C01_reachable_components e u h).2.1.2.1,
     (C01_reachable_components e u h).2.2.2.1⟩
 
-/-- the whole-string form of the clause is FALSE when the host carries an IPv6 zone id (kept verbatim, C16):
-    str(URL('http://[fe80::1%eth0]/')) contains '%et'.  (Not in KNOWN_FINDINGS; the property text confines only
-    its last sentence to "outside the host".) -/
+/-- KNOWN FINDING F-C01-host-percent, first witness: the whole-string form of the clause is FALSE when the host
+    carries an IPv6 zone id (kept verbatim, C16): str(URL('http://[fe80::1%eth0]/')) contains '%et'.  (The property
+    text confines only its last sentence to "outside the host"; every '%' outside the host IS checked.)  This is why
+    `C01_headline_percent_escapes_whole_string` (C01HeadlineMore.lean) carries the guard "no '%' in the
+    `host[:port]` text". -/
 theorem C01_headline_percent_escapes_fails_for_zone_id :
     let e : Env := ⟨.py, Oracles.empty⟩
     ∃ u r, encodeUrl e "http://[fe80::1%eth0]/".toStr = .ok u ∧ Reach e u ∧ str e u = .ok r ∧
@@ -158,6 +197,22 @@ theorem C01_headline_percent_escapes_fails_for_zone_id :
           [104, 116, 116, 112, 58, 47, 47, 91, 102, 101, 56, 48, 58, 58, 49, 37, 101, 116, 104, 48, 93, 47] := by decide
       rw [this]; simp [WellEscaped, isUpperHexDigit]⟩
 
+/-- KNOWN FINDING F-C01-host-percent, second witness: the host is stored LOWER-CASE, including the hex digits of
+    its escapes (as property C16 requires): str(URL('http://a%3Ab/')) = 'http://a%3ab/', so the '%' of the string
+    form is followed by '3a', not by two UPPER-case hex digits.  Same guard as above. -/
+theorem C01_headline_percent_escapes_fails_for_lowercased_host_escape :
+    let e : Env := ⟨.py, Oracles.empty⟩
+    ∃ u r, encodeUrl e "http://a%3Ab/".toStr = .ok u ∧ Reach e u ∧ u.netloc = "a%3ab".toStr ∧ str e u = .ok r ∧
+      r = "http://a%3ab/".toStr ∧ ¬ WellEscaped r := by
+  intro e
+  have hu : encodeUrl e "http://a%3Ab/".toStr = .ok
+      { scheme := "http".toStr, netloc := "a%3ab".toStr, path := "/".toStr, query := [], fragment := [],
+        pre := some { rawHost := some "a%3ab".toStr, explicitPort := none, rawUser := none, rawPassword := none } } := by
+    decide +kernel
+  refine ⟨_, _, hu, Reach.ctor _ _ (by decide) hu, rfl, by decide +kernel, rfl, ?_⟩
+  have : "http://a%3ab/".toStr = [104, 116, 116, 112, 58, 47, 47, 97, 37, 51, 97, 98, 47] := by decide
+  rw [this]; simp [WellEscaped, isUpperHexDigit]
+
 /-! ## Clause 3 — "its user, password, path, query and fragment contain only the characters RFC 3986 allows
     for that component" -/
 
@@ -172,7 +227,9 @@ theorem C01_headline_component_chars (e : Env) (u : Url) :
 
 /-- "its user, password … contain only the characters RFC 3986 allows" — ONLY for the user / password the
     auto-encoding constructor caches (`u.pre = some p`); additionally never a literal ':' (58) and every '%'
-    well-formed.  For with_user / with_password / build see GAPS 3. -/
+    well-formed.  For the accessors of EVERY reachable URL (lazily parsed ones included), with_user / with_password
+    and build see `C01_headline_userinfo_chars_reachable`, `…_with_user_with_password`, `…_build` in
+    C01HeadlineMore.lean (GAPS 3). -/
 theorem C01_headline_userinfo_chars_constructor (e : Env) (s : Str) (hs : PyStr s) (u : Url) (p : NetPre) (x : Str) :
     encodeUrl e s = .ok u → u.pre = some p → (p.rawUser = some x ∨ p.rawPassword = some x) →
     (∀ c ∈ x, (Rfc.userinfoLit c = true ∧ c ≠ 58) ∨ c = 37) ∧ WellEscaped x ∧ (∀ c ∈ x, c < 128) := by
@@ -194,7 +251,8 @@ theorem C01_headline_userinfo_chars_constructor (e : Env) (s : Str) (hs : PyStr 
 /-! ## Clause 4 — "Consequently bytes(url) never fails" -/
 
 /-- "bytes(url) never fails": `URL.__bytes__` is `str(self).encode("ascii")`, which fails exactly when some code
-    point is ≥ 128 — so this IS clause 1 (same guards, same gaps); restated for the reader's checklist. -/
+    point is ≥ 128 — so this IS clause 1 (same guards, same gaps); restated for the reader's checklist.  Without the
+    `hcache` / `hnetloc` guards: `C01_headline_bytes_never_fails_reachable` (C01HeadlineMore.lean). -/
 theorem C01_headline_bytes_never_fails (e : Env) (u : Url) (r : Str) (hreach : Reach e u) (hcache : CacheOK e u)
     (hscheme : ∀ c ∈ u.scheme, c < 128) (hnetloc : ∀ c ∈ u.netloc, c < 128) (hstr : str e u = .ok r) :
     r.all (fun c => decide (c < 128)) = true := by
@@ -243,31 +301,76 @@ example (b : Backend) (u v : Url) (hu : encodeUrl (sampleEnv b) sampleUrl = .ok 
 
 /-
 GAPS:
- 1. "string form is pure ASCII" / "bytes(url) never fails": proved only RELATIVE to `∀ c ∈ u.netloc, c < 128`.
-    No theorem in the project shows that the stored netloc of a reachable URL is ASCII (it is assembled from
-    REQUOTER/QUOTER output for user and password — ASCII by C01_quote_ascii — from the `encodeHost` result —
-    ASCII only when the IDNA oracle answers ASCII; C16 has the host-level facts — and from digits).  Missing:
-    `Reach e u → (oracle answers ASCII) → ∀ c ∈ u.netloc, c < 128`, for the constructor, build(), with_user,
-    with_password, with_host, with_port, origin.
- 2. "every '%' in it [the STRING FORM] starts an escape of two uppercase hex digits": proved per component
-    (path, query, fragment; user/password for constructor results).  There is NO theorem `WellEscaped r` for
-    `str e u = .ok r`; as stated it is FALSE for hosts with an IPv6 zone id
-    (C01_headline_percent_escapes_fails_for_zone_id, new here).  Missing: the guarded whole-string theorem
-    (host without '%' → WellEscaped (str u)), which needs "WellEscaped is preserved by `unsplitResult` /
-    `makeNetloc` concatenation with delimiter literals".
- 3. "its user, password … contain only the characters RFC 3986 allows": proved only for the user/password
-    cached by the auto-encoding constructor (C01_encodeUrl_userinfo_wf).  Nothing for: with_user, with_password,
-    build(user=, password=) (C11_with_user / C11_with_password say the value reads back as `q e Gen.QUOTER s`,
-    and C01_quote_chars_rfc_userinfo_quoter gives the characters of that — the composition is not stated and
-    needs the `UserOK`/`HostOK` shape hypotheses of C11), nor for the LAZY accessors `rawUser`/`rawPassword`
-    of a reachable URL with `u.pre = none` (copy, or any modifier result).
- 4. "non-ASCII characters and lone surrogates never appear outside the host" for the userinfo part of the
-    netloc and for the scheme: same as gaps 1 and 3; for the scheme it is FALSE (F-C01-scheme,
-    `C01_headline_str_ascii_fails_for`).  No theorem restricts the scheme of a reachable URL at all
-    (constructor: scheme characters come from `Gen.schemeChars`, see C07; with_scheme/build: anything).
+ 1. CLOSED by C01_reachable_netloc_ascii, C01_str_ascii_reachable, C01_bytes_never_fails_reachable (C01Str.lean), see
+    C01_headline_netloc_ascii, C01_headline_str_ascii_reachable, C01_headline_bytes_never_fails_reachable and the
+    input-level forms C01_headline_str_ascii_inputs_only, C01_headline_str_ascii_op_sequence (C01HeadlineMore.lean;
+    per entry point: C01_headline_netloc_ascii_entry, C01_headline_netloc_ascii_step).  Proved: the stored netloc
+    (and the pre-filled cache) of every URL reachable through the constructor, build(), the 19 operations and `join`
+    is ASCII, hence — for an ASCII scheme — `str` is ASCII and `bytes` succeeds; the `hcache` and `hnetloc` guards of
+    C01_headline_str_ascii / C01_headline_bytes_never_fails are gone.  The statement this item called "missing"
+    (`Reach e u → (oracle answers ASCII) → ∀ c ∈ u.netloc, c < 128`) is FALSE as written; the proved one is over
+    `ReachS` (= `Reach` + side conditions, explained in the header of C01HeadlineMore.lean) and has these hypotheses:
+      (a) `ZoneAscii` on the `host[:port]` text given to the constructor / build(authority=): what follows its first
+          '%' is ASCII.  Without it FALSE — KNOWN FINDING F-C01-nonascii-zone
+          (C01_headline_str_ascii_fails_for_nonascii_zone_id here, C01_headline_netloc_ascii_fails_for_nonascii_zone_id);
+      (b) `HostOracleAscii`: the IDNA oracle answers ASCII — an assumption on the codecs, see GAPS 7;
+      (c) a reference handed to the model operation `UOp.joinRef` has an ASCII authority and cache.  Without it FALSE,
+          a MODEL ARTEFACT (C01_headline_netloc_ascii_fails_for_foreign_join_ref); `join` of two reachable URLs
+          needs nothing;
+      (d) build(user=, password=, authority=) are Python strings (`BuildNetPy`; see GAPS 8);
+      (e) for `str` / `bytes`: the scheme is ASCII — KNOWN FINDING F-C01-scheme (C01_headline_str_ascii_fails_for,
+          C01_headline_str_ascii_fails_for_build_scheme); automatic for constructor results
+          (C01_headline_scheme_ascii_constructor) and under ASCII with_scheme / build(scheme=) arguments
+          (C01_headline_scheme_ascii_reachable).
+ 2. CLOSED by C01_str_well_escaped (C01Str.lean), see C01_headline_percent_escapes_whole_string
+    (C01HeadlineMore.lean).  Proved: for every `ReachS`-reachable URL whose scheme contains no '%' and whose
+    `host[:port]` text (`hostinfo u.netloc`, what follows the last '@' of the stored netloc) contains no '%',
+    `str e u = .ok r → WellEscaped r` — every '%' of the WHOLE string form starts `%XY`, X Y upper-case hex.
+    Hypotheses: `HostOracleNoAt` (no IDNA answer contains '@', GAPS 7); `UOp.joinRef` references satisfy `UserinfoOK`
+    (model artefact); the scheme guard is automatic for constructor results and under '%'-free ASCII with_scheme /
+    build(scheme=) arguments (C01_headline_scheme_ascii_constructor, C01_headline_scheme_ascii_reachable).  Without the
+    host guard the clause is FALSE — KNOWN FINDING F-C01-host-percent, both witnesses here:
+    C01_headline_percent_escapes_fails_for_zone_id ('%eth0') and
+    C01_headline_percent_escapes_fails_for_lowercased_host_escape ('http://a%3ab/').  What the host guard means in
+    accessor terms: GAPS 6.
+ 3. CLOSED by C01_userinfo_chars_reachable, C01_userinfo_chars_modifiers, C01_build_userinfo_chars,
+    C01_with_user_reads_back, C01_with_password_reads_back (C01Str.lean), see C01_headline_userinfo_chars_reachable
+    (raw_user / raw_password of EVERY `ReachS`-reachable URL, cached or lazily parsed),
+    C01_headline_userinfo_chars_with_user_with_password, C01_headline_userinfo_chars_build,
+    C01_headline_with_user_with_password_read_back (C01HeadlineMore.lean).  Proved: every character of the raw user /
+    raw password is an RFC 3986 userinfo literal other than ':' or is '%', every '%' starts `%XY` upper-case, all
+    ASCII; with_user(s) reads back as exactly QUOTER(s) without the `UserOK`/`HostOK` hypotheses of C11.  Hypotheses:
+    `HostOracleNoAt` (GAPS 7; why: C01_headline_userinfo_fails_for_idna_answer_with_at), `UserinfoOK` of
+    `UOp.joinRef` references (model artefact), Python-string arguments.
+ 4. CLOSED, as far as it is true, see C01_headline_no_raw_forbidden_chars_userinfo (user and password of every
+    `ReachS`-reachable URL: no space, control character, '"<>\^`{|}', literal ':', nothing ≥ 127; from
+    C01_userinfo_chars_reachable) and C01_headline_no_raw_forbidden_chars_scheme (the scheme: unconditionally for
+    constructor results; for every reachable URL when the with_scheme / build(scheme=) arguments are printable ASCII
+    without '"%<>\^`{|}'; NEW instance of `reachS_scheme`, Lemmas/StrAscii.lean), both in C01HeadlineMore.lean.
+    Otherwise the clause is FALSE for the scheme: with_scheme and build (which lower-cases its argument since fix
+    e21485a, but does not screen it) store any text — KNOWN FINDING F-C01-scheme (C01_headline_str_ascii_fails_for,
+    C01_headline_str_ascii_fails_for_build_scheme).
  5. Domain: `Reach` covers auto-encoding entry points only; `encoded=True` (constructor, build, with_path,
     joinpath) is outside C01 by its wording.  `UOp.joinRef` takes any `WFUrl` record as reference; `CacheOK`
     must be assumed of it (C01_headline_cache_ok_step) — harmless for API-made references.
+ 6. NEW (side condition of item 2).  The guard `37 ∉ hostinfo u.netloc` of C01_headline_percent_escapes_whole_string is
+    about the STORED authority text.  C01_headline_host_percent_guard_meaning (from C01_raw_host_no_pct,
+    C01_hostinfo_no_pct_of_written) gives: for a reachable URL the guard implies "raw_host contains no '%'"; for a
+    record of the `Written` shape (what the authority modifiers write) "the host contains no '%'" implies the guard.
+    NOT proved: for an ARBITRARY reachable URL (e.g. a constructor result), "raw_host contains no '%'" implies the
+    guard.
+ 7. NEW (hypotheses of items 1–4 without a discharging theorem).  `HostOracleAscii o` (every answer of
+    `idna.encode(…, uts46=True)` / the stdlib "idna" codec is ASCII) and `HostOracleNoAt o` (no answer contains '@') are
+    ASSUMPTIONS on the oracle table.  Both hold for `Oracles.empty` (C01_headline_side_conditions_met: every run on
+    ASCII hosts).  For CPython's codecs the first holds because both return `bytes.decode("ascii")`; the second follows
+    from "IDNA maps through NFKC first and the constructor / build(authority=) reject an NFKC form with '@'"
+    (C01_headline_idna_answer_with_at_now_rejected shows the real answers for 'a＠b' are rejected since fix c2c2803) —
+    neither argument is inside the model, which does not tie the `nfkc` table to the IDNA tables.
+ 8. NEW (domain of C01HeadlineMore.lean).  Its theorems are over `ReachS`, not `Reach`: besides the three named side
+    conditions, `ReachS.build` requires user=, password= and authority= to be Python strings (`BuildNetPy`), which
+    `Reach.build` forgot (it asks this of path, query, fragment only).  Harmless — every Python `str` qualifies — but
+    it means items 1–4 say nothing about a `Reach.build` step whose authority texts contain code points > 0x10FFFF
+    (which exist only in the model's `Str`).
 -/
 
 end Yarl
